@@ -20,7 +20,7 @@ import NmVerif.Linalg
     view/linear.hpp            linear        tensordot(input, weight, ((-1),(-1))) [+ bias]
     view/pairwise_distance.hpp pairwiseDistance   vector_norm(lhs − rhs + eps, axis −1, keepdims, ord)
     view/cosine_similarity.hpp cosineSimilarity   sum((a·b) / (max(‖a‖,eps)·max(‖b‖,eps)), axis) on the broadcast operands
-    view/batch_norm.hpp        batchNorm     parameters through atleast_nd(3) and moveaxis(−1 → −3), then element-wise
+    view/batch_norm.hpp        batchNorm     parameters through atleast_nd(dim(input)−1) and moveaxis(−1 → 0), then element-wise
     view/layer_norm.hpp        layerNorm     mean / var over the trailing axes (keepdims), element-wise, weight, bias
     view/instance_norm.hpp     instanceNorm  mean / var over the last ND axes, parameters moved to axis −ND−1
     view/group_norm.hpp        groupNorm     reshape to (N, G, C/G, …), mean / var over axes 2.., reshape back
@@ -136,10 +136,33 @@ def moveLast (a : OArr α) (k : Nat) : Option (OArr α) :=
 def chanParam (p : Arr α) (n : Nat) : Option (OArr α) :=
   (atleastNd (lift p) n).bind fun q => moveLast q n
 
+/-- `nd` of `view::batch_norm` (fixes/C17-batch-norm-rank): `dim(input) − 1`, and 1 for an input of rank ≤ 1 -/
+def batchNormNd (r : Nat) : Nat := if r > 1 then r - 1 else 1
+
+/-- a per-channel parameter as batch_norm prepares it: `moveaxis(atleast_nd(p, n), −1, 0)` — the last axis to the front -/
+def chanParamFront (p : Arr α) (n : Nat) : Option (OArr α) :=
+  (atleastNd (lift p) n).bind fun q => moveLast q q.shape.length
+
 /-- `view::batch_norm(input, mean, var, weight, bias, eps)`:
-    the four parameters through `atleast_nd(·, 3)` and `moveaxis(·, −1, −3)`;
+    the four parameters through `atleast_nd(·, nd)` and `moveaxis(·, −1, 0)` with `nd = dim(input) − 1` (a `(C)` parameter
+    becomes `(C, 1, …, 1)` with `dim(input) − 1` axes, which broadcasts against axis 1 of the input; before
+    fixes/C17-batch-norm-rank it was `atleast_nd(·, 3)` and `moveaxis(·, −1, −3)` for every input rank: `batchNormOld`);
     `stddev = sqrt(add(var, eps))`, `add(multiply(divide(subtract(input, mean), stddev), weight), bias)` -/
 def batchNorm (add sub mul div : α → α → α) (sqrt : α → α) (eps : α) (x m v w b : Arr α) : Option (OArr α) :=
+  let nd := batchNormNd x.shape.length
+  (chanParamFront w nd).bind fun w' =>
+  (chanParamFront b nd).bind fun b' =>
+  (chanParamFront m nd).bind fun m' =>
+  (chanParamFront v nd).bind fun v' =>
+  let sd := un (fun t => sqrt (add t eps)) v'
+  (bin sub (lift x) m').bind fun s =>
+  (bin div s sd).bind fun d =>
+  (bin mul d w').bind fun p =>
+  bin add p b'
+
+/-- `view::batch_norm` before fixes/C17-batch-norm-rank: the parameters always at axis −3 of three (kept for the
+    regression instance) -/
+def batchNormOld (add sub mul div : α → α → α) (sqrt : α → α) (eps : α) (x m v w b : Arr α) : Option (OArr α) :=
   (chanParam w 3).bind fun w' =>
   (chanParam b 3).bind fun b' =>
   (chanParam m 3).bind fun m' =>
